@@ -263,6 +263,7 @@ def run(ctx):
     ctx.rule('R16.9', 'segment classes: an attribute stored outside __init__ (a memo) is only read under a guard on the current control '
                       'points (bpoints()/hash(self)); the frozen table of known memos is checked by R16.3', 4)
     KNOWN_MEMOS = {'_length_info', 'segment_length', 'segment_length_hash'}
+    sem_memo = {}
     for cname in ('Line', 'QuadraticBezier', 'CubicBezier', 'Arc'):
         cls = mdl.cls('path.' + cname)
         init = cls.method('__init__')
@@ -289,11 +290,30 @@ def run(ctx):
                     if isinstance(n, ast.Attribute) and isinstance(n.ctx, ast.Load) and self_attr(n, mname):
                         st = enclosing_stmt(n)
                         g = _conj_guards(st, fi.node)
-                        keyed = any(mentions(t, lambda x: (isinstance(x, ast.Call) and norm(x) in ('self.bpoints()', 'hash(self)'))) for t, pol in g)
+                        keyed = any(mentions(t, lambda x: (isinstance(x, ast.Call) and norm(x) == 'self.bpoints()')) for t, pol in g)
                         if not keyed:
-                            bad.append('%s L%d reads memo %s without a guard on the current control points' % (fi.qualname, n.lineno, mname))
+                            # the read is validated in some other way?  decide the reading method by a mutate-and-query history
+                            key_ = (cname, fi.name)
+                            if key_ not in sem_memo:
+                                sem_memo[key_] = _history_equals_fresh(ctx, mdl, cname, fi, 'R16.9', record=False)
+                            if sem_memo[key_] is True:
+                                continue
+                            bad.append('%s L%d reads memo %s without a guard on the current control points%s' % (
+                                fi.qualname, n.lineno, mname, ' (and goes stale after a control point is reassigned)' if sem_memo[key_] is False else ''))
         ctx.record('R16.9', cls.qualname, 'unkeyed memos={%s}' % ','.join(sorted({b.split(' reads memo ')[1].split(' ')[0] for b in bad})), not bad,
                    detail='; '.join(bad[:3]), where=where(init), sample={'memo_attributes': sorted(memos)})
+
+    # ------------------------------------------------------------------ R16.11 observers of a mutated segment
+    ctx.rule('R16.11', 'Line/QuadraticBezier/CubicBezier: bpoints, poly, point, derivative, bbox and hash queried after a control point was '
+                       'reassigned in place equal those of a freshly built segment (whatever memo the class keeps, however it is keyed)', 12)
+    for cname in ('Line', 'QuadraticBezier', 'CubicBezier'):
+        cls = mdl.cls('path.' + cname)
+        for obs in ('bpoints', 'poly', 'point', 'derivative', 'bbox', '__hash__'):      # length(): R16.3
+            if obs in cls.methods:
+                r = _history_equals_fresh(ctx, mdl, cname, cls.methods[obs], 'R16.11')
+                if r is None:
+                    ctx.undecided('R16.11', 'path.%s.%s' % (cname, obs), 'query, reassign a control point, query again == fresh segment',
+                                  'the history left the interpretable fragment', where=where(cls.methods[obs]))
 
     # ------------------------------------------------------------------ R16.4 reads after compute
     ctx.extra['table_builders'] = sorted(ensurers)
@@ -1026,3 +1046,92 @@ def _semantic_readers(ctx, mdl, PathC):
                                      allowed_raises=('AssertionError', 'ValueError', 'RuntimeError', 'Exception'),   # "cannot happen" exits of the scans (infeasible label paths)
                                      opts={'presign': [(Tt, '+'), (Tt - 1, '-'), (T0, '+'), (T1 - 1, '-'), (T1 - T0, '+'), (T0 - 1, '-'), (T1, '+'),
                                                        (Rat.sym('tloc'), '+'), (Rat.sym('tloc') - 1, '-')]})
+
+
+# ------------------------------------------------------------------------------------------------
+# segments are mutable: an observation made after an in-place change of a control point must be the one a fresh segment gives
+def _struct_equal(a, b, depth=0):
+    if depth > 8:
+        return False
+    if isinstance(a, Rat) or isinstance(b, Rat) or isinstance(a, (int, float, Fr)) and isinstance(b, (int, float, Fr)):
+        try:
+            return to_rat(a).equals(to_rat(b))
+        except Exception:
+            return False
+    if isinstance(a, PolyT) and isinstance(b, PolyT):
+        return len(a.c) == len(b.c) and all(x.equals(y) for x, y in zip(a.c, b.c))
+    if isinstance(a, Arr) and isinstance(b, Arr):
+        return _struct_equal(a.d, b.d, depth + 1)
+    if isinstance(a, (list, tuple)) and isinstance(b, (list, tuple)):
+        return len(a) == len(b) and all(_struct_equal(x, y, depth + 1) for x, y in zip(a, b))
+    if isinstance(a, dict) and isinstance(b, dict):
+        return set(a) == set(b) and all(_struct_equal(a[k], b[k], depth + 1) for k in a)
+    return a == b
+
+
+def _history_equals_fresh(ctx, mdl, cname, fi, rule, record=True):
+    """query, reassign one control point in place, query again: equal to the same query on a freshly built segment?
+    -> True | False | None (cannot be run: the method needs more than one argument, or left the fragment)"""
+    from .c08 import mm_hooks
+    cls = mdl.cls('path.' + cname)
+    fields = cls.method('__init__').params()[1:]
+    if cname == 'Arc' or not fields:
+        return None
+    a = fi.node.args
+    required = len(a.args) - 1 - len(a.defaults)
+    if required > 1 or a.vararg is not None:
+        return None
+    args = [Rat.sym('tq')] if required == 1 else []
+    n = len(fields)
+    P = cpoints(n, 'P')
+    NEW = Rat.csym('NEWPT')
+    verdict = True
+    details = []
+    for k, field in enumerate(fields):
+        def th(it, k=k, field=field):
+            seg = it.construct('path.' + cname, *P)
+            call = lambda o: it.call(Closure(fi, fi.node, None, fi.module, o, cls), list(args), {})
+            call(seg)
+            it.setattr(seg, field, NEW)
+            after = call(seg)
+            fresh = it.construct('path.' + cname, *[NEW if j == k else P[j] for j in range(n)])
+            return after, call(fresh)
+        def bbox_hook(it, a_, k_):
+            # the generic box routine is summarised by symbols that are a function of the control points it is given
+            import hashlib
+            pts = it.iterate(it.call_method(a_[0], 'bpoints')) if isinstance(a_[0], Obj) else it.iterate(a_[0])
+            h = hashlib.sha1('|'.join(to_rat(x).key() for x in pts).encode()).hexdigest()[:10]
+            return tuple(Rat.sym('BB%d_%s' % (i, h)) for i in range(4))
+
+        def roots_hook(it, a_, k_):
+            # the roots are a function of the polynomial they are taken of (so that roots of a stale polynomial are recognisable)
+            from svtstatic import poly as _pl
+            cs = a_[0].c if isinstance(a_[0], PolyT) else it.iterate(a_[0])
+            val = Rat.const(0)
+            for c in cs:
+                val = val * Rat.sym('XROOT') + to_rat(c)
+            return [Rat(_pl.Poly.atom(_pl.fn_atom('rootof', val)))]
+        xh = mm_hooks()
+        if fi.name != '__hash__':
+            # hashes may collide (hash(-1.0) == hash(-2.0)): a memo must not rely on them to tell two states apart
+            xh['builtins.hash'] = lambda it, a_, k_: 7
+        try:
+            paths = explore(mdl, th, {'ext_hooks': xh, 'globals': {('*', '_quad_available'): False},
+                                      'call_hooks': {'path.segment_length': lambda it, a_, k_: Rat.sym('SEGLEN') + to_rat(it.call_method(a_[0], 'point', Rat.const(Fr(1, 3)))).real(),
+                                                     'polytools.polyroots01': roots_hook, 'polytools.polyroots': roots_hook,
+                                                     'bezier.bezier_bounding_box': bbox_hook},
+                                      'presign': [(Rat.sym('tq'), '+'), (Rat.sym('tq') - 1, '-')] + [(NEW - P[j], '-+') for j in range(n)]})
+        except Undecidable:
+            return None
+        for pth in paths:
+            if pth.raised is not None:
+                continue
+            after, fresh = pth.value
+            if not _struct_equal(after, fresh):
+                verdict = False
+                details.append('after `seg.%s = z` %s() still answers for the old control points' % (field, fi.name))
+                break
+    if record:
+        ctx.record(rule, 'path.%s.%s' % (cname, fi.name), 'query, reassign a control point, query again == fresh segment', verdict,
+                   detail='; '.join(details[:2]), where=where(fi))
+    return verdict
